@@ -37,15 +37,16 @@ TABLE = {
         "assumptions": ["copy.copy is a shallow copy; DBModel.natural_join_to_near_sql is a function of the node it receives"],
     },
     "C26": {
-        "mods": ["contracts.c06_builders"], "groups_extra": [(["contracts.c26_ctors"], ["NaturalJoinNode.__init__", "SelectColumnsNode.__init__", "DropColumnsNode.__init__", "OrderRowsNode.__init__"])],
+        "mods": ["contracts.c06_builders"], "groups_extra": [(["contracts.c26_ctors"], ["NaturalJoinNode.__init__", "SelectColumnsNode.__init__", "DropColumnsNode.__init__", "OrderRowsNode.__init__"]),
+                                                               (["contracts.c26_parse"], ["parse_assignments_in_context"])],
         "keys": ["ViewRepresentation.is_trivial_when_intermediate_", "OrderRowsNode.is_trivial_when_intermediate_"] + ["ViewRepresentation." + b for b in
                  ("natural_join", "concat_rows", "select_rows_parsed_", "drop_columns", "map_columns", "rename_columns", "order_rows", "convert_records", "select_columns", "project_parsed_")],
-        "explanation": ("hybrid: PROVED (pyvc) -- (i) four constructors (NaturalJoinNode, SelectColumnsNode, DropColumnsNode, OrderRowsNode): accepted => every documented rule holds "
+        "explanation": ("hybrid: PROVED (pyvc) -- (0) parse_assignments_in_context raises ValueError exactly when an assignment reads a column that another assignment of the same step produces (self-update allowed) and otherwise returns every assignment parsed under its key; (i) four constructors (NaturalJoinNode, SelectColumnsNode, DropColumnsNode, OrderRowsNode): accepted => every documented rule holds "
                         "(join keys exist on both sides, requested common-column check passes, only known columns, reverse within order columns) and rejected with the rule's exception kind "
                         "=> some rule is violated; (ii) the part of the property that concerns simplifiable prefixes: every builder hands ALL its arguments (join-key check flag included) "
                         "to the same builder of the source when an order_rows without limit is eliminated, and otherwise to the node constructor, and select_columns accepts only "
                         "columns of the step it is applied to also when it collapses onto an earlier select/drop; so the constructor's verdict is the verdict on the unsimplified "
-                        "sequence. The remaining rule checks (ExtendNode / ProjectNode / ConcatRowsNode / Map / Rename __init__, parse_assignments_in_context) are NOT under contract: "
+                        "sequence. The remaining rule checks (ExtendNode / ProjectNode / ConcatRowsNode / Map / Rename __init__) are NOT under contract: "
                         "BOUNDED -- every enumerated prefix x one violating and one conforming step per rule, rejected at build time <=> the rule predicate on the materialised description"),
         "assumptions": ["node constructors abstracted as new_C(all arguments) or a rejection at builder call sites"],
     },
